@@ -61,6 +61,15 @@ Theorem C03_basic_round_trip :
 Proof. exact basic_round_trip_b. Qed.
 Print Assumptions C03_basic_round_trip.
 
+(* ... and the same statement about [parse], the model of parse_cdc itself (stripping, the empty-circuit shortcut, the scanner and
+   the parser in sequence): parsing the printed text returns exactly the specified tree. *)
+Theorem C03_basic_round_trip_parse :
+  forall reg, syms_valid reg = true -> syms_unique reg = true ->
+  forall pf c n', pconn reg pf c = Some n' -> (2 * pf <= depth_budget)%nat ->
+  parse reg (to_string reg None c pf) = Ok (top n').
+Proof. exact basic_parse. Qed.
+Print Assumptions C03_basic_round_trip_parse.
+
 (* non-vacuity: the live registry meets the hypotheses, and a nested tree over it (series in parallel in series, a nested
    same-kind connection that is merged, a one-element series that is unwrapped) has a parse result *)
 Definition c03_example : conn :=
